@@ -278,16 +278,38 @@ def r03_4(ctx: Ctx) -> None:
                        form=" > ".join(txt(lp.iter) for lp in reversed(loops)))
         ctx.ob("R03.4", CP, app, "remove_redundant_protoclusters", "kept unless redundant", ok,
                "every cluster not marked redundant is kept", form=f"guards={[(txt(t), pol) for t, pol in gs]}")
+    # gene order (`<`) decides 'before / after' only for cores that do not cross the origin
+    orders = [n for n in walk_local(rr) if isinstance(n, ast.Compare) and len(n.ops) == 1 and isinstance(n.ops[0], (ast.Lt, ast.Gt))
+              and all(isinstance(x, ast.Name) for x in (n.left, n.comparators[0]))]
+    for index, cmp_ in enumerate(orders):
+        stmt = next(a for a in _anc(cmp_, rr) if isinstance(a, ast.stmt))
+        facts = {(txt(e), t) for e, t in path_facts(rcfg, stmt)}
+        guarded = any(not t and text.count(".crosses_origin()") >= 2 and " or " in text for text, t in facts) or \
+            sum(1 for text, t in facts if not t and text.endswith(".crosses_origin()")) >= 2
+        ctx.ob("R03.4", CP, cmp_, "remove_redundant_protoclusters", f"gene order only for cores within the record#{index}", guarded,
+               "the first/last genes of two cores are compared by position only when neither core crosses the origin (the first "
+               "gene of a crossing core lies *after* its last one)",
+               detail="" if guarded else "ring of 20000: S1[9000:9300) pS, S2[10000:10300) pS+pI, I2[11000:11300) pI, Inf SUPERIORS Sup, "
+               "cutoff 1500 - with the origin at 9600 or 10650 both Sup{S1,S2} and Inf{S2,I2} are reported, elsewhere only Sup",
+               form=txt(cmp_))
     # the pipeline in find_protoclusters: only these three post-processing calls rebind `clusters`
     rebinding = []
     for node in walk_local(func):
         if isinstance(node, ast.Assign) and any(isinstance(t, ast.Name) and t.id == "clusters" for t in node.targets) \
                 and isinstance(node.value, ast.Call):
             rebinding.append(call_name(node.value))
-    ok = rebinding == ["apply_extenders", "remove_redundant_protoclusters", "merge_over_origin"]
+    want = ["apply_extenders", "merge_over_origin", "remove_redundant_protoclusters"]
+    ok = sorted(rebinding) == sorted(want) and rebinding.index("apply_extenders") < rebinding.index("remove_redundant_protoclusters")
     ctx.ob("R03.4", CP, func, "find_protoclusters", "post-processing pipeline", ok,
-           "clusters are rebound only by extenders -> superiors removal -> origin merge, in that order",
-           form=" -> ".join(rebinding))
+           "clusters are rebound only by the extenders, the origin merge and the superiors removal, and cores are extended "
+           "before they are compared with their superiors", form=" -> ".join(rebinding))
+    whole = sorted(rebinding) == sorted(want) and rebinding.index("merge_over_origin") < rebinding.index("remove_redundant_protoclusters")
+    ctx.ob("R03.4", CP, func, "find_protoclusters", "halves joined before superiors removal", whole,
+           "protoclusters that the origin splits in two are joined before they are compared with their superiors: a half on its "
+           "own may be covered by a superior (and dropped) while the whole chain is not, or the other way round",
+           detail="" if whole else "ring of 20000, cutoff 1500: g0[104:325) pS+pI, g1[2825:3022) pI, g2[4422:4606) pS+pI ... - with the "
+           "origin moved between g1 and g2 the Inf chain {g1, g2} is judged as {g1} and {g2}: {g2} is dropped, {g1} is reported, "
+           "while on the unrotated record the whole chain is dropped", form=" -> ".join(rebinding))
     _ = module
 
 
